@@ -238,6 +238,8 @@ def c11_shards(tier, prop="C11", mon="C11"):
         sh.append(duplex_cursor_test("duplex-cursor-test-r%d" % ring, ring, prop, mon))
         sh.append(duplex_overlong("duplex-overlong-r%d" % ring, ring, ring % 2 + 1, prop, mon))
         sh.append(same_cmd("duplex-samecmd-r%d" % ring, ring, prop, mon))
+    if prop == "C11":
+        sh += scale_shards("C11")
     for ring in (1, 2):
         sh.append(failing_events("duplex-failing-events-r%d" % ring, ring, prop, mon))
     # the match table fills the command half completely (24 commands, half capacity 6): the byte after it is the first byte of the event half
@@ -571,6 +573,11 @@ SWEEP_RULE = ("every case is one input (or descriptor + input) executed on the r
               "and variable by variable with the reference model; distinct = distinct (final parser state, output) hashes")
 
 
+def scale_shards(prop, n=4):
+    # descriptors beyond what the shared harness builds: 16..1000 variables per command, single variables printing up to 2^17 characters
+    return [{"tag": "scale-%d" % i, "bin": "sw_scale", "args": ["--prop", prop, "--shard", i, "--nshards", n]} for i in range(n)]
+
+
 def sw_shards(name, prop, tier, n, *extra, asan=False, tagp=None):
     return [sweep("%s-%s-%d" % (tagp or name, "-".join(str(e) for e in extra if not str(e).startswith("--")) or "all", i), name, "--prop", prop, "--tier", tier,
                   "--shard", i, "--nshards", n, *extra, asan=asan) for i in range(n)]
@@ -685,6 +692,7 @@ def p_c07(tier):
     sh = sw_shards("roundtrip", "C07", tier, 32, "--family", "numeric")
     sh += sw_shards("roundtrip", "C07", tier, 8, "--family", "buffers")
     sh += sw_shards("roundtrip", "C07", tier, 8, "--family", "mixes")
+    sh += scale_shards("C07")
     for mode in (1, 2):
         sh += sw_shards("roundtrip", "C07", tier, 8, "--family", "mixes", "--interfere", mode, tagp="mixes-2obj%d" % mode)
     # formatted READ responses (command and event) and WRITE argument lists while the other machine works, odd-sized shared buffer included
